@@ -27,7 +27,7 @@ def RS(kind, pay="", **k):
 
 def journal_specs(maxlen, role_both=True):
     specs = []
-    slots = "ADSHO"
+    slots = "ADSHON"
     n = 0
     for L in range(0, maxlen + 1):
         for pat in itertools.product(slots, repeat=L):
@@ -39,6 +39,8 @@ def journal_specs(maxlen, role_both=True):
                     sends.append(RS("APP", "11=b"))
                 elif c == "S":
                     sends.append(RS("HB"))
+                elif c == "N":
+                    sends.append(RS("APP", "11=n%d" % i, pdn=True))          # journaled with PossDupFlag=N spelled out
                 elif c == "O":
                     sends.append(RS("APP", "11=o%d|97=Y" % i, ost0=True))   # journaled with an OrigSendingTime of its own
                 else:
